@@ -193,6 +193,10 @@ def r4(ctx, R):
     if len(ret) != 1 or not isinstance(ret[0].value, ast.Name) or ret[0].value.id not in defs:
         raise AnalysisError(f'{w}: single `return <name>` not found')
     conv = ret[0].value.id
+    # every LATER assignment of the returned name may only replace a missing value (None) by False
+    later = [c for c in N.contribs if c.target == conv and c.op == '=' and c.stmt.value is not defs[conv]]
+    bad_later = [c.describe() for c in later if not (c.rhs == 'False' and c.guards and c.guards[-1] == f'{conv} is None')]
+    R.check(not bad_later, 'check_convergence :: the decision is not overwritten afterwards (only `None -> False`)', w, f'{conv} = False if {conv} is None', bad_later)
 
     def canon(n):
         return ast.unparse(N.cexpr(n)).replace('S.levels[0]', 'L')
